@@ -17,7 +17,6 @@ mod rv;
 mod util;
 mod outcome;
 mod roundtrip;
-#[cfg(feature = "full")]
 mod corpus;
 mod model {
     pub mod fold;
